@@ -156,6 +156,14 @@ def asUnfrozenList (what : String) (v : Val) : EM (Nat × Nat × Nat × Nat) :=
   | .list false arr off len cap => pure (arr, off, len, cap)
   | o => fail s!"{what} must be a list, not {typeName o}"
 
+/-- The list argument of the native builtin `fname`: `args[i].(pyList)` fails for a frozen list unless the
+    function unwraps it (regenerated table `Facts.frozenOK`). -/
+def asListFor (F : Facts) (fname what : String) (v : Val) : EM (Nat × Nat × Nat × Nat) :=
+  match v with
+  | .list fz arr off len cap =>
+    if fz && !F.frozenOK fname then fail s!"{what} must be a list, not list" else pure (arr, off, len, cap)
+  | o => fail s!"{what} must be a list, not {typeName o}"
+
 /-- `extreme` (builtins.go:1090) without a key function -/
 def bestOf (F : Facts) (op : BinOp) (best : Val) : List Val → EM Val
   | [] => pure best
@@ -171,7 +179,7 @@ def callBuiltin (F : Facts) (fname : String) (args : List (Option String × Val)
     match fname, vals with
     | "len", [obj] => do pure (.int (← objLen obj))
     | "sorted", [seq, key, reverse] => do
-      let (arr, off, len, cap) ← asUnfrozenList "Argument seq" seq
+      let (arr, off, len, cap) ← asListFor F fname "Argument seq" seq
       let rev ← match reverse with
         | .bool b => pure b
         | _ => fail "Argument reverse must be a bool"
@@ -186,7 +194,7 @@ def callBuiltin (F : Facts) (fname : String) (args : List (Option String × Val)
           pure (.list false arr off len cap)
         else mkList sorted
     | "reversed", [seq] => do
-      let (arr, off, len, cap) ← asUnfrozenList "irreversible type" seq
+      let (arr, off, len, cap) ← asListFor F fname "irreversible type" seq
       let xs ← elems arr off len
       if F.reversedInPlace then do
         writeMany arr off xs.reverse
@@ -198,7 +206,7 @@ def callBuiltin (F : Facts) (fname : String) (args : List (Option String × Val)
       | .int a, _, .int c => pure (.range 0 a c)
       | _, _, _ => fail "interface conversion"
     | "enumerate", [seq] => do
-      let (arr, off, len, _) ← asUnfrozenList "Argument to enumerate" seq
+      let (arr, off, len, _) ← asListFor F fname "Argument to enumerate" seq
       let xs ← elems arr off len
       let rec enumGo (i : Nat) : List Val → EM (List Val)
         | [] => pure []
@@ -210,7 +218,7 @@ def callBuiltin (F : Facts) (fname : String) (args : List (Option String × Val)
       let rec lens : List Val → EM (List (List Val))
         | [] => pure []
         | s :: r => do
-          let (arr, off, len, _) ← asUnfrozenList "Arguments to zip" s
+          let (arr, off, len, _) ← asListFor F fname "Arguments to zip" s
           pure ((← elems arr off len) :: (← lens r))
       let ls ← lens seqs
       match ls with
@@ -225,17 +233,17 @@ def callBuiltin (F : Facts) (fname : String) (args : List (Option String × Val)
               pure (row :: (← rows (i + 1) k))
           mkList (← rows 0 l0.length)
     | "any", [seq] => do
-      let (arr, off, len, _) ← asUnfrozenList "Argument to any" seq
+      let (arr, off, len, _) ← asListFor F fname "Argument to any" seq
       let xs ← elems arr off len
       let st ← get
       pure (.bool (xs.any (truthySt st)))
     | "all", [seq] => do
-      let (arr, off, len, _) ← asUnfrozenList "Argument to all" seq
+      let (arr, off, len, _) ← asListFor F fname "Argument to all" seq
       let xs ← elems arr off len
       let st ← get
       pure (.bool (xs.all (truthySt st)))
     | "min", [seq, key] | "max", [seq, key] => do
-      let (arr, off, len, _) ← asUnfrozenList "Argument seq" seq
+      let (arr, off, len, _) ← asListFor F fname "Argument seq" seq
       if len == 0 then fail "Argument seq must contain at least one item"
       else if key != .none then fail "model: min/max(key=) is outside the core"
       else do
